@@ -31,8 +31,8 @@ MANIFEST = {
             "byte-aligned networks, seeded pseudo-random schedules) run on the real capture manager, write-out path and query engine; "
             "rows, in-memory flows and database blocks are compared with the specification after every step and with a twin run "
             "without live queries.",
-    "note": "Packets are limited to shapes whose stored orientation is unambiguous (TCP SYN, UDP from an ephemeral port, ICMP echo "
-            "request); every interface has had its first write-out (the query front end lists interfaces from the database); the time "
+    "note": "Packets are TCP SYN, UDP from an ephemeral port, ICMP echo request (orientation in the packet) and TCP segments without SYN "
+            "(orientation only in the capture's memory: idle entries are modelled and compared); every interface has had its first write-out (the query front end lists interfaces from the database); the time "
             "attribute and direction filters are not part of the queries; the stored part of an answer is owned by C08/C09 - the live "
             "part is judged relative to what the ordinary query returns. Trusts the scripted source, the gated write-out handler and "
             "reading the database back through an unconditional query.",
@@ -118,12 +118,16 @@ def main():
     with vlib.Scratch("verif-c29-") as sc:
         _TMP["TMPDIR"] = sc
         sets = [("pos4" if thorough else "pos3", ""),
+                ("orient5" if thorough else "orient4", ""),
                 ("cond-thorough" if thorough else "cond-quick", "CONSTANT ChunkSize = %d" % (100 if thorough else 20)),
                 ("rand", "CONSTANT Seed = %d\nCONSTANT NRand = %d\nCONSTANT Depth = %d" %
                  (run.seed, 200 if thorough else 40, 40 if thorough else 30))]
+        if thorough:
+            sets.insert(2, ("orient6x4", ""))
         jobs = {"mc-cov": ("LiveQueryMC", "LiveQueryMC.cfg", {"coverage": True, "timeout": 900, "consts": "CONSTANT MaxPackets = 2"}),
                 "mc": ("LiveQueryMC", "LiveQueryMC.cfg", {"timeout": 1500, "consts": "CONSTANT MaxPackets = %d" % (4 if thorough else 3)}),
-                "mc-neg": ("LiveQueryMC", "LiveQueryMCNeg.cfg", {"timeout": 900, "consts": "CONSTANT MaxPackets = 3"})}
+                "mc-neg": ("LiveQueryMC", "LiveQueryMCNeg.cfg", {"timeout": 900, "consts": "CONSTANT MaxPackets = 3"}),
+                "mc-neg-idle": ("LiveQueryMC", "LiveQueryMCNegIdle.cfg", {"timeout": 900, "consts": "CONSTANT MaxPackets = 3"})}
         for gs, extra in sets:
             jobs["gen-" + gs] = _gen_job(gs, extra)
         res = _tlc_jobs(sc, jobs)
@@ -145,6 +149,10 @@ def main():
         vlib.require(neg.violation in ("TwinOK", "LiveChangesNothing"),
                      "negative model run (live snapshot resets the counters) was not rejected: %s %s" % (neg.violation, neg.error))
         run.cov["negative_model_run"] = "LiveResets=TRUE violates %s" % neg.violation
+        negi = res["mc-neg-idle"]
+        vlib.require(negi.violation in ("TwinOK", "LiveChangesNothing"),
+                     "negative model run (live snapshot frees idle entries) was not rejected: %s %s" % (negi.violation, negi.error))
+        run.cov["negative_model_run_idle"] = "LiveDropsIdle=TRUE violates %s" % negi.violation
 
         # ---- F: schedules from the specification on the real manager / database / query engine
         universe = None
@@ -210,12 +218,13 @@ def main():
         run.cov["negative_control"] = "%d/%d behaviours with one corrupted expected live row rejected" % (len(rejected), len(negset))
 
     run.cov["rule"] = ("distinct = distinct (live query, in-memory flows, database) triples compared; F covers all sequences of length "
-                       "%d over {3 packets + 1 on the second interface, write-out, 2 live queries} with a live query, one live query per "
+                       "%d over {3 packets + 1 on the second interface, write-out, 2 live queries} with a live query, all sequences of length "
+                       "%d over {handshake and two later segments of a conversation between ephemeral ports, write-out, live query}, one live query per "
                        "condition tree of the %s set (all attributes, attribute subsets for a core set) and %d seeded pseudo-random "
-                       "schedules" % (4 if thorough else 3, "thorough" if thorough else "quick", 200 if thorough else 40))
+                       "schedules" % (4 if thorough else 3, 5 if thorough else 4, "thorough" if thorough else "quick", 200 if thorough else 40))
     run.assumptions += [
         "every interface has had its first (empty) write-out before the first live query: the query front end lists interfaces from the database",
-        "packet shapes with unambiguous orientation only (TCP SYN, UDP from an ephemeral port, ICMP echo request, portless protocols)",
+        "packets sent by the client side only: TCP SYN, UDP from an ephemeral port, ICMP echo request, portless protocols, and TCP segments without SYN (between two ephemeral ports and towards service ports)",
         "queries group by subsets of sip,dip,dport,proto without the time attribute and without direction filters",
         "the stored part of an answer is the ordinary query (C08/C09); the live part is judged as live answer minus ordinary answer",
         "database blocks without rows are not distinguished from absent blocks (read back through a time,sip,dip,dport,proto query)",
